@@ -12,3 +12,8 @@ CLAMP_LAST = [
   ("sensor._sensor_vel", "sensordata_out", "sensor_cutoff", "C07", "apply_cutoff is the last operation on a sensor value"),
   ("sensor._sensor_acc", "sensordata_out", "sensor_cutoff", "C07", "apply_cutoff is the last operation on a sensor value"),
 ]
+
+# R-CLAMP.3 (function, range parameter, exempt (Enum, MEMBER) literal, property, reason)
+RETURNS_CLAMPED = [
+  ("support.next_act", "actuator_actrange", ("DynType", "USER"), "C03", "mj_nextActivation clamps the activation to actrange whenever actlimited, also when act_dot is zero; DynType.USER activations are not advanced by this port"),
+]
